@@ -385,7 +385,9 @@ def arg_case_impl(chk, rng, family, fname, opts, make, compare_value=True, pre=N
                 chosen[name] = k
                 return container(r, k, vals)
             f, kw = make(C)
-            inp = dict(family=family, function=fname, options=opts, focus=focus, kinds=dict(chosen), values={k: v[1] for k, v in rec.items()})
+            inp = dict(family=family, function=fname, options=opts, focus=focus, kinds=dict(chosen), values={k: v[1] for k, v in rec.items()},
+                       other_arguments={k: (v if isinstance(v, (int, float, bool, str, type(None))) else np.ma.filled(v, np.nan).tolist() if isinstance(v, np.ndarray) else type(v).__name__)
+                                        for k, v in kw.items() if k not in rec})
             if not chk.begin('%s:%s:%s=%s' % (base_key, optstr, focus, kind), inp): continue
             chk.l3((base_key, optstr, focus, kind))
             before = {k: deep_snap(v) for k, v in kw.items()}
